@@ -233,7 +233,7 @@ func judge(r *vcore.Run, p *program, res execResult, where string, replay func()
 		r.Count("harness-error:"+short(res.err), 1)
 		return
 	}
-	if p.negative == "" && res.err != nil && strings.Contains(res.err.Error(), "runtime error:") && !strings.Contains(res.err.Error(), "solve panic") {
+	if p.negative == "" && res.err != nil && (strings.Contains(res.err.Error(), "runtime error:") || strings.Contains(res.err.Error(), "trying to reduce a constant")) && !strings.Contains(res.err.Error(), "solve panic") {
 		// a Go runtime panic while the circuit is being defined: no constraint system / no result exists,
 		// so nothing can be incongruent: robustness observation, not a violation of C12
 		c := runtimeCulprit(res.err)
@@ -268,6 +268,9 @@ func judge(r *vcore.Run, p *program, res execResult, where string, replay func()
 func runtimeCulprit(err error) string {
 	s := err.Error()
 	kind := "runtime-error"
+	if strings.Contains(s, "trying to reduce a constant") {
+		return "reduce-of-constant-with-overflow"
+	}
 	if strings.Contains(s, "nil pointer") {
 		kind = "nil-pointer"
 	} else if strings.Contains(s, "index out of range") {
